@@ -33,6 +33,14 @@ extern "C" const char* __asan_default_options()
 }
 extern "C" const char* __ubsan_default_options() { return "print_stacktrace=0:halt_on_error=1"; }
 
+// built with --coverage by tools/coverage.py: children leave through _exit, so flush the counters by hand
+#ifdef HZ_COVERAGE
+extern "C" void __gcov_dump(void);
+#define HZ_GCOV_DUMP() __gcov_dump()
+#else
+#define HZ_GCOV_DUMP() ((void) 0)
+#endif
+
 namespace hz
 {
 struct BadArgs : std::runtime_error
@@ -252,6 +260,7 @@ inline std::string run_forked(const std::function<void(Out&)>& body, std::string
 		fflush(stdout);
 		std::string r = "R" + o.s.str();
 		if(write(rfd, r.data(), r.size()) < 0) {}
+		HZ_GCOV_DUMP();
 		_exit(0);
 	}
 	int st = 0;
